@@ -680,6 +680,12 @@ WITNESSES = [
     {"name": "apply-forward-transform", "file": _T, "rule": "C13.c", "old": "        pred = meth(X_trans)\n        inv = self.transformer_.get_fct_inv()\n", "new": "        pred = meth(X_trans)\n        inv = self.transformer_\n"},
     {"name": "proba-uses-predict", "file": _T, "rule": "C13.c", "old": '        return self._apply(X, "predict_proba")\n', "new": '        return self._apply(X, "predict")\n'},
 ]
+# witnesses of the rules added after the ninth round of independent changes
+WITNESSES += [
+    {"name": "int32-labels-taken-for-scores", "file": _F, "rule": "C13.b", "old": "(numpy.str_, numpy.int32, numpy.int64)", "new": "(numpy.str_, numpy.int_)"},
+]
+
+
 TWINS = [
     {"name": "table-log1p-lambda", "file": _F, "old": '"log(1+x)": (lambda x: numpy.log(x + 1), "exp(x)-1")', "new": '"log(1+x)": (lambda z: numpy.log(1 + z), "exp(x)-1")'},
 ]
